@@ -21,20 +21,20 @@ RULE = (
 ASSUMPTIONS = [
     "threshold 5 degrees against <= 1.8 degrees observed on resolved domains (DESIGN C08); the plain centroid is NOT used (periodic wrap-around bias)",
 ]
-MIN_NONTRIVIAL = {"quick": 40, "thorough": 400}
-TIMEOUT = {"quick": 1500, "thorough": 3400}
+MIN_NONTRIVIAL = {"quick": 40, "thorough": 900}
+TIMEOUT = {"quick": 1500, "thorough": 7000}
 
 
 def cases(tier, seed):
     out = [{"seed": seed, "idx": i, "kind": "unit"} for i in range(8 if tier == "quick" else 32)]
     lattice = [7.5 * k for k in range(48)]
-    reps = 3 if tier == "quick" else 12
+    reps = 3 if tier == "quick" else 40
     i = 0
     for r in range(reps):
         for d in lattice:
             out.append({"seed": seed, "idx": i, "kind": "e2e", "wd": d, "_cost": 8})
             i += 1
-    for k in range(48 if tier == "quick" else 600):
+    for k in range(48 if tier == "quick" else 2000):
         out.append({"seed": seed, "idx": i, "kind": "e2e", "wd": None, "_cost": 8})
         i += 1
     return out
